@@ -3,6 +3,7 @@
 #include <core/core.h>
 #include <log/log.h>
 #include <stdarg.h>
+#include "vhooks_default.h"
 struct simulation_configuration global_config;
 lp_id_t n_lps_node;
 __thread rid_t rid;
